@@ -269,6 +269,129 @@ int World::exec_abuse(const Op &op) {
         }
         break;
     }
+    case OP_abuse_legacy: {
+        // the older and rarely used entry points of the same functionality (deprecated overloads, free functions of nix::util, unit-
+        // carrying conversions, back-reference queries) with in-range and out-of-range arguments
+        arg_class = "sel=" + std::to_string(sel);
+        double pos = 0.5 * (double) r.range(-6, 40);
+        double pos2 = pos + 0.5 * (double) r.range(-2, 12);
+        static const char *units[] = {"none", "ms", "s", "mV", "", "kHz", "foo", "m/s"};
+        std::string u = units[r.below(8)];
+        static const PositionMatch pms[] = {PositionMatch::Less, PositionMatch::LessOrEqual, PositionMatch::Equal, PositionMatch::GreaterOrEqual, PositionMatch::Greater};
+        PositionMatch pm = pms[r.below(5)];
+        RangeMatch rm = r.chance(1, 2) ? RangeMatch::Inclusive : RangeMatch::Exclusive;
+        switch (sel % 7) {
+        case 0: case 1: {
+            DataArray x = arr_at(a[0], a[1]); if (!x) return 2;
+            ndsize_t n = x.dimensionCount(); if (!n) return 2;
+            Dimension d; try { d = x.getDimension(1 + r.below(n)); } catch (const std::exception &) { return 1; }
+            DimensionType t = d.dimensionType();
+            std::vector<double> st = {pos, pos2, -1.0}, en = {pos2, pos, 1e12};
+            std::vector<std::string> us = {u, "ms", "none"};
+            if (t == DimensionType::Sample) {
+                SampledDimension sd = d.asSampledDimension();
+                ATTEMPT((void) sd.indexOf(pos)); ATTEMPT((void) sd.indexOf(pos, pos2)); ATTEMPT((void) sd.indexOf(st, en));
+                ATTEMPT((void) sd.indexOf(pos, pos2, 0.0, 0.0, rm)); ATTEMPT((void) sd.indexOf(pos, pos2, -1.0, 1e300, rm));
+                ATTEMPT((void) util::positionToIndex(pos, u, pm, sd)); ATTEMPT((void) util::positionToIndex(pos, u, sd));
+                ATTEMPT((void) util::positionToIndex(st, en, us, rm, sd)); ATTEMPT((void) util::positionToIndex(st, en, us, sd));
+                ATTEMPT((void) util::positionToIndex(st, std::vector<double>{1.0}, us, rm, sd));
+            } else if (t == DimensionType::Range) {
+                RangeDimension rd = d.asRangeDimension();
+                ATTEMPT((void) rd.indexOf(pos, true)); ATTEMPT((void) rd.indexOf(pos, false)); ATTEMPT((void) rd.indexOf(pos, pos2)); ATTEMPT((void) rd.indexOf(st, en, true, rm)); ATTEMPT((void) rd.indexOf(st, en));
+                ATTEMPT((void) util::positionToIndex(pos, u, pm, rd)); ATTEMPT((void) util::positionToIndex(pos, u, rd));
+                ATTEMPT((void) util::positionToIndex(st, en, us, rm, rd)); ATTEMPT((void) util::positionToIndex(st, en, us, rd));
+                ATTEMPT((void) util::positionToIndex(st, en, std::vector<std::string>{"ms"}, rm, rd));
+            } else if (t == DimensionType::Set) {
+                SetDimension sd = d.asSetDimension();
+                std::vector<std::string> labels; try { labels = sd.labels(); } catch (const std::exception &) {}
+                ATTEMPT((void) sd.indexOf(pos, pos2, labels, rm)); ATTEMPT((void) sd.indexOf(st, en, rm));
+                { std::vector<std::string> none; ATTEMPT((void) sd.indexOf(pos, pos2, none, rm)); }
+                ATTEMPT((void) util::positionToIndex(pos, pm, sd)); ATTEMPT((void) util::positionToIndex(pos, u, sd));
+                ATTEMPT((void) util::positionToIndex(st, en, rm, sd)); ATTEMPT((void) util::positionToIndex(st, en, us, sd));
+            } else if (t == DimensionType::DataFrame) {
+                DataFrameDimension fd = d.asDataFrameDimension();
+                ATTEMPT((void) fd.indexOf(pos, pm)); ATTEMPT((void) fd.indexOf(pos, pos2, rm)); ATTEMPT((void) fd.indexOf(st, en, rm));
+                ATTEMPT((void) util::positionToIndex(pos, pm, fd));   /* the overload taking a unit is declared but not defined in the library */
+                ATTEMPT((void) util::positionToIndex(st, en, rm, fd));
+            }
+            ATTEMPT((void) util::dimTypeToStr(t));
+            break;
+        }
+        case 2: {
+            Tag t = tag_at(a[0], a[1]); if (!t) return 2;
+            ndsize_t nr = t.referenceCount(), nf = t.featureCount();
+            ndsize_t ri = r.chance(1, 3) ? nr + r.below(2) : (nr ? r.below(nr) : 0), fi = r.chance(1, 3) ? nf + r.below(2) : (nf ? r.below(nf) : 0);
+            calls++; try { DataView v = util::retrieveData(t, ri, rm); read_view(v); } catch (const std::exception &) { threw++; }
+            calls++; try { DataView v = util::retrieveFeatureData(t, fi, rm); read_view(v); } catch (const std::exception &) { threw++; }
+            calls++; try { DataView v = util::featureData(t, fi, rm); read_view(v); } catch (const std::exception &) { threw++; }
+            if (nr) { DataArray ref; try { ref = t.getReference((size_t) 0); } catch (const std::exception &) {} if (ref) { calls++; try { DataView v = util::retrieveData(t, ref, rm); read_view(v); } catch (const std::exception &) { threw++; }
+                                                                                                                         calls++; try { DataView v = util::taggedData(t, ref, rm); read_view(v); } catch (const std::exception &) { threw++; } } }
+            if (nf) { Feature fe; try { fe = t.getFeature((ndsize_t) 0); } catch (const std::exception &) {} if (fe) { calls++; try { DataView v = util::retrieveFeatureData(t, fe, rm); read_view(v); } catch (const std::exception &) { threw++; }
+                                                                                                                        calls++; try { DataView v = util::featureData(t, fe, rm); read_view(v); } catch (const std::exception &) { threw++; } } }
+            { DataArray other = arr_at(a[0], a[3]); if (other) { calls++; try { DataView v = util::taggedData(t, other, rm); read_view(v); } catch (const std::exception &) { threw++; } } }
+            { Feature none_f; ATTEMPT((void) util::featureData(t, none_f, rm)); DataArray none_a; ATTEMPT((void) util::taggedData(t, none_a, rm)); }
+            break;
+        }
+        case 3: case 4: {
+            MultiTag t = mtag_at(a[0], a[1]); if (!t) return 2;
+            ndsize_t nr = t.referenceCount(), nf = t.featureCount(), np = 0;
+            try { np = t.positionCount(); } catch (const std::exception &) {}
+            ndsize_t pi = r.chance(1, 3) ? np + r.below(2) : (np ? r.below(np) : 0);
+            ndsize_t ri = r.chance(1, 4) ? nr + r.below(2) : (nr ? r.below(nr) : 0), fi = r.chance(1, 4) ? nf + r.below(2) : (nf ? r.below(nf) : 0);
+            std::vector<ndsize_t> idx = {pi, 0, np};
+            calls++; try { DataView v = util::retrieveData(t, pi, ri, rm); read_view(v); } catch (const std::exception &) { threw++; }
+            calls++; try { std::vector<DataView> vs = util::retrieveData(t, idx, ri, rm); for (auto &v : vs) read_view(v); } catch (const std::exception &) { threw++; }
+            calls++; try { std::vector<DataView> vs = util::taggedData(t, idx, ri, rm); for (auto &v : vs) read_view(v); } catch (const std::exception &) { threw++; }
+            calls++; try { DataView v = util::retrieveFeatureData(t, pi, fi, rm); read_view(v); } catch (const std::exception &) { threw++; }
+            calls++; try { std::vector<DataView> vs = util::retrieveFeatureData(t, idx, fi, rm); for (auto &v : vs) read_view(v); } catch (const std::exception &) { threw++; }
+            calls++; try { std::vector<DataView> vs = util::featureData(t, idx, fi, rm); for (auto &v : vs) read_view(v); } catch (const std::exception &) { threw++; }
+            calls++; try { DataView v = t.retrieveFeatureData((size_t) pi, (size_t) fi); read_view(v); } catch (const std::exception &) { threw++; }
+            if (nr) { DataArray ref; try { ref = t.getReference((size_t) 0); } catch (const std::exception &) {} if (ref) {
+                calls++; try { DataView v = util::retrieveData(t, pi, ref, rm); read_view(v); } catch (const std::exception &) { threw++; }
+                calls++; try { std::vector<DataView> vs = util::retrieveData(t, idx, ref, rm); for (auto &v : vs) read_view(v); } catch (const std::exception &) { threw++; }
+                calls++; try { DataView v = util::taggedData(t, pi, ref, rm); read_view(v); } catch (const std::exception &) { threw++; }
+                { NDSize o, c; ATTEMPT(util::getOffsetAndCount(t, ref, pi, o, c, rm)); }
+                calls++; try { DataView v = t.taggedData((size_t) pi, ref.name()); read_view(v); } catch (const std::exception &) { threw++; } } }
+            if (nf) { Feature fe; try { fe = t.getFeature((ndsize_t) 0); } catch (const std::exception &) {} if (fe) {
+                calls++; try { DataView v = util::retrieveFeatureData(t, pi, fe, rm); read_view(v); } catch (const std::exception &) { threw++; }
+                calls++; try { DataView v = util::featureData(t, pi, fe, rm); read_view(v); } catch (const std::exception &) { threw++; }
+                calls++; try { std::vector<DataView> vs = util::retrieveFeatureData(t, idx, fe, rm); for (auto &v : vs) read_view(v); } catch (const std::exception &) { threw++; }
+                calls++; try { std::vector<DataView> vs = util::featureData(t, idx, fe, rm); for (auto &v : vs) read_view(v); } catch (const std::exception &) { threw++; }
+                calls++; try { DataView v = t.featureData((size_t) pi, fe.id()); read_view(v); } catch (const std::exception &) { threw++; } } }
+            ATTEMPT((void) t.featureData((size_t) pi, std::string("no-such-feature"))); ATTEMPT((void) t.hasPositions());
+            break;
+        }
+        case 5: {
+            Section s = section_at(a[1]);
+            Block b = blk(a[0]);
+            if (s) { ATTEMPT((void) s.referringBlocks()); ATTEMPT((void) s.referringTags()); ATTEMPT((void) s.referringMultiTags()); ATTEMPT((void) s.referringSources()); ATTEMPT((void) s.referringDataArrays());
+                     if (b) { ATTEMPT((void) s.referringTags(b)); ATTEMPT((void) s.referringMultiTags(b)); ATTEMPT((void) s.referringSources(b)); ATTEMPT((void) s.referringDataArrays(b)); }
+                     Block nb; ATTEMPT((void) s.referringTags(nb)); ATTEMPT((void) s.referringDataArrays(nb));
+                     ATTEMPT((void) s.findSections(util::AcceptAll<Section>(), 100)); ATTEMPT((void) s.findRelated()); ATTEMPT((void) s.inheritedProperties()); ATTEMPT((void) s.parent()); }
+            Source so = source_at(a[0], a[1]);
+            if (so) { ATTEMPT((void) so.referringTags()); ATTEMPT((void) so.referringMultiTags()); ATTEMPT((void) so.referringDataArrays()); ATTEMPT((void) so.findSources(util::AcceptAll<Source>(), 100)); ATTEMPT((void) so.parentSource()); }
+            if (b) { ATTEMPT((void) b.findSources(util::AcceptAll<Source>(), 100)); }
+            ATTEMPT((void) f.findSections(util::AcceptAll<Section>(), 100)); ATTEMPT((void) f.location()); ATTEMPT((void) f.fileMode()); ATTEMPT((void) f.compression()); ATTEMPT((void) f.updatedAt());
+            break;
+        }
+        default: {
+            // unit and name helpers with arbitrary strings
+            static const char *strs[] = {"", "mV", "mV^2", "m/s", "kg*m^2/s^-3", "^", "*", "/", "m^", "1/s", "mV*", "\xc2\xb5V", "uV", "dam", "m^-1*", "1e3", " ", "a/b/c", "kHz^2", "S/cm", "none"};
+            std::string x = strs[r.below(21)], y = strs[r.below(21)];
+            ATTEMPT((void) util::isSIUnit(x)); ATTEMPT((void) util::isAtomicSIUnit(x)); ATTEMPT((void) util::isCompoundSIUnit(x)); ATTEMPT((void) util::isScalable(x, y));
+            ATTEMPT((void) util::isScalable(std::vector<std::string>{x, y}, std::vector<std::string>{y, x})); ATTEMPT((void) util::isScalable(std::vector<std::string>{x}, std::vector<std::string>{y, x}));
+            ATTEMPT((void) util::isSetAtSamePos(std::vector<std::string>{x, ""}, std::vector<std::string>{y}));
+            ATTEMPT((void) util::getSIScaling(x, y));
+            { std::string si, prefix, power; ATTEMPT(util::splitUnit(x, prefix, si, power)); }
+            { std::vector<std::string> parts; ATTEMPT(util::splitCompoundUnit(x, parts)); }
+            ATTEMPT((void) util::convertToSeconds(x, 1.5)); ATTEMPT((void) util::convertToKelvin(x, 1.5));
+            ATTEMPT((void) util::unitSanitizer(x)); ATTEMPT((void) util::nameSanitizer(x)); ATTEMPT((void) util::nameCheck(x)); ATTEMPT((void) util::looksLikeUUID(x));
+            ATTEMPT((void) string_to_data_type(x)); ATTEMPT((void) apiVersion());
+            break;
+        }
+        }
+        break;
+    }
     default: return 2;
     }
     cnt.inc("abuse.calls", (uint64_t) calls);
